@@ -144,6 +144,10 @@ structure Scope where
   vars : VarMap
   /-- `localVars` -/
   locals : List Name
+  /-- `varPtrNames` of this context (after the repair fixes/C16-varptr-per-context): identity of a function-level
+      variable ↦ name of the JS variable holding its pointer object. For the root context: the package-wide
+      `pkgCtx.varPtrNames` of package-level variables. -/
+  ptrNames : List (Nat × Name) := []
 
 /-- package.go:142-144: the root context, `allVars[keyword] = 1` for every reserved word. -/
 def rootScope : Scope :=
@@ -165,7 +169,7 @@ def newVariable (minify : Bool) (name : Name) (pkgLevel : Bool) : List Scope →
         some ({ fc with vars := fc.vars.set nm (n + 1) } ::
               parents.map (fun c => { c with vars := c.vars.set nm (n + 1) }), varName)
       else
-        some ({ vars := fc.vars.set nm (n + 1), locals := fc.locals ++ [varName] } :: parents, varName)
+        some ({ fc with vars := fc.vars.set nm (n + 1), locals := fc.locals ++ [varName] } :: parents, varName)
 
 /-- functions.go:60 `strings.ReplaceAll(o.Name(), ".", midDot)`. -/
 def dotsToMidDot : Name → Name
@@ -177,6 +181,54 @@ def dotsToMidDot : Name → Name
 def newChild (minify : Bool) (funcName : Name) : List Scope → Option (List Scope × Name)
   | [] => none
   | fc :: parents => newVariable minify (dotsToMidDot funcName) true ({ vars := fc.vars, locals := [] } :: fc :: parents)
+
+/-- look a variable up in the `varPtrNames` of the context and of its parents -/
+def lookupPtr (v : Nat) : List Scope → Option Name
+  | [] => none
+  | sc :: r =>
+    match sc.ptrNames.lookup v with
+    | some nm => some nm
+    | none => lookupPtr v r
+
+/-- remember `v ↦ nm` in the innermost context -/
+def recordPtr (v : Nat) (nm : Name) : List Scope → List Scope
+  | [] => []
+  | sc :: r => { sc with ptrNames := (v, nm) :: sc.ptrNames } :: r
+
+/-- remember `v ↦ nm` in the root context (the package-wide map) -/
+def recordPtrRoot (v : Nat) (nm : Name) : List Scope → List Scope
+  | [] => []
+  | [sc] => [{ sc with ptrNames := (v, nm) :: sc.ptrNames }]
+  | sc :: r => sc :: recordPtrRoot v nm r
+
+/-- `"$ptr"` -/
+def ptrSuffix : Name := [36, 112, 116, 114]
+
+/-- utils.go `fc.varPtrName(o)` for a variable that is not an exported package-level one (after the repair):
+    function-level variables are looked up in the context chain and otherwise allocated with `newVariable` in the
+    current context; package-level ones use the package-wide map and `newVariable(…, true)`. -/
+def varPtrName (minify : Bool) (v : Nat) (name : Name) (pkgLevel : Bool) (chain : List Scope) :
+    Option (List Scope × Name) :=
+  if pkgLevel then
+    match (chain.getLast?).bind (fun sc => sc.ptrNames.lookup v) with
+    | some nm => some (chain, nm)
+    | none =>
+      match newVariable minify (name ++ ptrSuffix) true chain with
+      | none => none
+      | some (c, nm) => some (recordPtrRoot v nm c, nm)
+  else
+    match lookupPtr v chain with
+    | some nm => some (chain, nm)
+    | none =>
+      match newVariable minify (name ++ ptrSuffix) false chain with
+      | none => none
+      | some (c, nm) => some (recordPtr v nm c, nm)
+
+/-- REPAIRED DEFECT — what the second instantiation of a generic function did before the repair: the name cached by
+    another context is appended to `localVars` without being counted in `allVars`. -/
+def oldReusePtr (nm : Name) : List Scope → List Scope
+  | [] => []
+  | sc :: r => { sc with locals := sc.locals ++ [nm] } :: r
 
 /-! ### Histories: what the compiler does with these functions.
   It translates one function at a time; a function literal is translated while its enclosing function is being
@@ -195,6 +247,8 @@ inductive Op where
   | pop
   /-- `newVariable(name, pkgLevel)` in the innermost context -/
   | req (name : Name) (pkgLevel : Bool)
+  /-- `varPtrName` of the function-level variable `v` (Go name `name`) in the innermost context -/
+  | ptr (v : Nat) (name : Name)
 
 def initState : NState := { chain := [rootScope], pkgNames := [] }
 
@@ -211,6 +265,10 @@ def stepOp (minify : Bool) (st : NState) : Op → Option NState
     match newVariable minify name pk st.chain with
     | none => none
     | some (c, nm) => some { chain := c, pkgNames := if pk then st.pkgNames ++ [nm] else st.pkgNames }
+  | .ptr v name =>
+    match varPtrName minify v name false st.chain with
+    | none => none
+    | some (c, _) => some { st with chain := c }
 
 def runOps (minify : Bool) : NState → List Op → Option NState
   | st, [] => some st
